@@ -684,6 +684,12 @@ def run(ck):
         r.update(extra or {})
         ck.violation(r, no_input=no_input)
 
+    # summed cost bound for the response decoders, stated on C05's decoder language (Model/DecDSL.v, Model/DecAst.v: not ours);
+    # when those do not build (work in progress there) the bound is recorded as absent, nothing more
+    ok, log = ck.make_soft("Props/C12cost.vo")
+    ck.cov["summed_decoder_cost_bound"] = "checked (Props/C12cost.v)" if ok else "not checked: Props/C12cost.vo does not build (%s)" % log[-300:]
+    if ok:
+        ck.props("C12cost")
     tie_down = translator_tie(ck)
     # ============================================================ 0. shared codec models still match the code
     # (two-ties rule: where the translator tie for _util.py is not intact the correspondence carries those functions
@@ -1239,7 +1245,7 @@ def run(ck):
     ck.assumptions += [
         "Model/Prim.v, Model/Crc.v, Model/MsgSet.v stand for afkak/_util.py:153-196, zlib.crc32 and afkak/kafkacodec.py:361-469 (tie = this run's correspondence incl. codec_lib.selftest, not proof)",
         "Model/FetchGrow.v stands for afkak/consumer.py:925-996,1015-1021,1093-1104 and the unlimited-retry path of _handle_fetch_error only (synchronous processor, request_retry_max_attempts = 0, no OffsetOutOfRange, no commits/stop: those are Model/Consumer.v, property C14)",
-        "Model/Responses.v (property C05's model of every decode_*) is compared with the implementation on the malformed stream; the C12 theorems about readers and counted loops are generic (any reader consuming >= c bytes) and are not instantiated per decoder",
+        "Model/Responses.v (property C05's model of every decode_*) is compared with the implementation on the malformed stream; the summed cost bound (Props/C12cost.v: ticks <= 23 * length + 26 for all 16 decoder terms) is stated on C05's decoder LANGUAGE (Model/DecDSL.v, terms Model/DecAst.v, tied to the source by Props/C05gen.v) with a tick = one statement / loop iteration; bytes copied by one read and the lazy message-set generator of a FetchResponse are not ticks; memory: only the number of yielded objects is bounded (yields <= ticks), bytes held are monitor-only",
         "bursts that straddle the boundary between the stored CRC field and the checksummed bytes, and alterations of the offset/size fields of a message-set entry (not covered by the CRC in formats 0 and 1), are outside the theorems; the run records what the implementation does there",
         "gzip is an oracle (its recorded answers are given to the model); work is bounded relative to input bytes + decompressed bytes, times the nesting depth for the hand-over of messages (C12_hops_linear_per_depth); snappy is not installed and not exercised; nesting beyond CPython's recursion limit (RecursionError) is not exercised",
         "work monitor: sys.settrace line events of files under <repo>/afkak (bound 3x the worst ratio of the unchanged tree), time.perf_counter, tracemalloc peak (memory is monitor-only: no theorem); byte-level work is seen only by the scaling monitor: bytes copied by slicing a counting bytes subclass (bound 4x the unchanged tree) and the wall-time ratio for a 4x larger set (bound 10, linear = 4, quadratic = 16); copies made without slicing the input (e.g. bytes(data) in a loop) are visible to the time ratio only",
